@@ -3,6 +3,7 @@ package memtable
 import (
 	"fmt"
 	"iter"
+	"slices"
 	"strings"
 	"sync"
 
@@ -72,7 +73,8 @@ func (l *List) Put(key []byte, value []byte, seqNum uint64) (full bool) {
 }
 
 func (l *List) Get(key []byte) (kv.Entry, error) {
-	for _, t := range l.tablesSnap() {
+	// Newest table first: the last table is the active one.
+	for _, t := range slices.Backward(l.tablesSnap()) {
 		v, err := t.Get(key)
 		if err != nil {
 			if err == kv.ErrNotFound {
